@@ -149,6 +149,15 @@ func genC07(c *Ctx) {
 		for _, trig := range []string{"mf=0", "mp=0", fmt.Sprintf("cancel=%d", 2*cc), "cf=1", "limit=1"} {
 			emit(true, fmt.Sprintf("cmap c=%d n=%d sync=1 mg=1 cg=1 sg=1 %s script=%s", cc, 3*cc+4, trig, concScript(fill)))
 			emit(true, fmt.Sprintf("nest c=%d n=%d size=2 sync=1 mg=1 cg=1 sg=1 %s script=%s", cc, 3*cc+4, trig, concScript(fill)))
+			// the same with the stage as a later inner stream of a Concat (opened while emitting)
+			emit(true, fmt.Sprintf("cmap c=%d n=%d sync=1 mg=1 cg=1 sg=1 tail=1 %s script=%s", cc, 3*cc+4, trig, concScript(fill)))
+			emit(true, fmt.Sprintf("nest c=%d n=%d size=2 sync=1 mg=1 cg=1 sg=1 tail=1 %s script=%s", cc, 3*cc+4, trig, concScript(fill)))
+		}
+		for _, trig := range []string{"cf=1", "limit=1", "first=1", "mf=1"} {
+			// ungated, the workers run ahead of a consumer that stops by itself: nobody cancels the caller's ctx
+			emit(true, fmt.Sprintf("cmap c=%d n=%d sync=0 mg=0 yield=1 tail=1 %s script=-", cc, 6*cc+8, trig))
+			emit(true, fmt.Sprintf("nest c=%d n=%d size=2 sync=0 mg=0 yield=1 tail=1 %s script=-", cc, 6*cc+8, trig))
+			emit(true, fmt.Sprintf("buf c=1 n=%d size=%d sync=0 yield=1 tail=1 %s script=-", 6*cc+8, cc+1, trig))
 		}
 		// Buffered: size-1 queued + 1 in hand, then the consumer stops / is cancelled while the filler is in Emit
 		for _, trig := range []string{"cf=1", "limit=1", fmt.Sprintf("cancel=%d", cc+2)} {
